@@ -125,6 +125,16 @@ let () =
            incr mism; incr eq_spec_diff;
            Printf.printf "MISMATCH equal-spec model=%b spec=%b\t%s\t%s\n" m spec a b
          end
+       | ["RQ"; a; b; impl] ->
+         incr n; incr eq_n;
+         let ra = parse_route a and rb = parse_route b in
+         let m = route_equal ra rb in
+         if m then incr eq_true;
+         if m <> (impl = "1") then begin
+           incr mism;
+           Printf.printf "MISMATCH route-equal impl=%s model=%b spec=%b nodup=true\t%s\t%s\n" impl m
+             (ra.rname = rb.rname && ra.rpath = rb.rpath) a b
+         end
        | ["CR"; id; kind; where; rs; orc; cls; acc; observed] ->
          incr n; incr cr_n;
          let routes = List.map parse_route (split ',' rs) in
